@@ -974,7 +974,16 @@ func (lr *lckResult) analyse(fn *ssa.Function, report bool) bool {
 							if strings.Count(w2, " <- ") < 4 {
 								w2 = why + " <- " + shortFn(callee)
 							}
-							if lr.needGuard(fn, sum, g, w2, ins.Pos()) {
+							// this function holds a lock its own caller handed in: that lock may be the guard the callee
+							// needs (a locked variant that delegates to the lock-free one) — let the call site decide
+							need := g
+							for k, h := range s {
+								if h.must && strings.HasPrefix(k.class, "<param") {
+									need = k.class + "=>" + g
+									break
+								}
+							}
+							if lr.needGuard(fn, sum, need, w2, ins.Pos()) {
 								changed = true
 							}
 						}
